@@ -62,30 +62,27 @@ Definition wfg (g : graph) : Prop := forall nr, wfo (g nr) = true.
 
 Definition isref (o : obj) : bool := match o with ORef _ _ => true | _ => false end.
 
-(* o' is o with some references a replaced by references b' where R b' a *)
+(* o' is o with some references b replaced by references a where R a b *)
+Section RW.
+  Variable rw : obj -> obj -> Prop.
+  Fixpoint rewr_list (l' l : list obj) : Prop :=
+    match l', l with
+    | [], [] => True
+    | x' :: t', x :: t => rw x' x /\ rewr_list t' t
+    | _, _ => False
+    end.
+  Fixpoint rewr_dict (d' d : dict) : Prop :=
+    match d', d with
+    | [], [] => True
+    | kv' :: t', kv :: t => fst kv' = fst kv /\ rw (snd kv') (snd kv) /\ rewr_dict t' t
+    | _, _ => False
+    end.
+End RW.
 Fixpoint rewr (R : Z -> Z -> Prop) (o' o : obj) {struct o'} : Prop :=
   match o', o with
   | ORef a _, ORef b _ => R a b
-  | OArr l', OArr l =>
-      (fix go (l' l : list obj) : Prop :=
-         match l', l with
-         | [], [] => True
-         | x' :: t', x :: t => rewr R x' x /\ go t' t
-         | _, _ => False
-         end) l' l
-  | ODict d', ODict d =>
-      (fix go (d' d : dict) : Prop :=
-         match d', d with
-         | [], [] => True
-         | kv' :: t', kv :: t => fst kv' = fst kv /\ rewr R (snd kv') (snd kv) /\ go t' t
-         | _, _ => False
-         end) d' d
-  | OStream d' r', OStream d r =>
-      (fix go (d' d : dict) : Prop :=
-         match d', d with
-         | [], [] => True
-         | kv' :: t', kv :: t => fst kv' = fst kv /\ rewr R (snd kv') (snd kv) /\ go t' t
-         | _, _ => False
-         end) d' d /\ r' = r
+  | OArr l', OArr l => rewr_list (rewr R) l' l
+  | ODict d', ODict d => rewr_dict (rewr R) d' d
+  | OStream d' r', OStream d r => rewr_dict (rewr R) d' d /\ r' = r
   | _, _ => o' = o
   end.
